@@ -432,7 +432,11 @@ func checkHistory(c hcfg, all []recOp) {
 			if x.Out.Res == "garbage" {
 				class = "read-returned-bytes-nobody-wrote"
 			}
-			r.Violation(lib.Sig{"op": x.In.Op, "class": class, "path": c.Path, "compact": fmt.Sprint(c.Compact)},
+			kind := "other"
+			if strings.Contains(x.Out.Res, "EOF") {
+				kind = "eof"
+			}
+			r.Violation(lib.Sig{"op": x.In.Op, "class": class, "path": c.Path, "compact": fmt.Sprint(c.Compact), "error_kind": kind},
 				map[string]interface{}{"msg": x.Out.Res, "op": x, "case": c, "history": all})
 			return
 		}
